@@ -200,6 +200,31 @@ def cg_reuse_cases(rng, count):
     return res
 
 
+def cg_at_solution_cases(rng, count):
+    """class E: the start position already solves the system exactly (b := A x0 in integers); a controller that does
+    not stop in `start` then sends CG through its `previous_gamma == 0` exit"""
+    res = []
+    for _ in range(count):
+        n = rng.randint(1, 4)
+        cplx = rng.random() < 0.4
+        re, im, fam = hpd(rng, n, cplx)
+        xr = _vec(rng, n, -3, 3)
+        xi = _vec(rng, n, -3, 3, False) if cplx else [0] * n
+        imz = im if cplx else [[0] * n for _ in range(n)]
+        br = [sum(re[i][j] * xr[j] - imz[i][j] * xi[j] for j in range(n)) for i in range(n)]
+        bi = [sum(re[i][j] * xi[j] + imz[i][j] * xr[j] for j in range(n)) for i in range(n)]
+        case = dict(op="cg", n=n, cplx=cplx, A=re, family="exact-at-solution", hpd=True, klass="E", b=br, x=xr, P=None)
+        if cplx:
+            case.update(Ai=im, bi=bi, xi=xi)
+        ty = rng.choice(["deltae", "absdeltae", "stochastic", "gradnorm"])
+        case["ctrl"] = _controller(rng, ty, n, 4.0, 4.0, 0.0, -4.0, False)
+        if ty == "gradnorm":        # no tolerance: only the limit could stop it in `start`
+            case["ctrl"].update(tol_abs=None, tol_rel=None, limit=rng.randint(1, 5))
+        case["nreset"] = rng.choice([1, 5, 20])
+        res.append(case)
+    return res
+
+
 def cg_exact_cases(rng, count):
     """class E: one CG step solves the system and every float operation on the way is exact"""
     res = []
